@@ -8,7 +8,7 @@
     values), every combination of options, every grace period and interval, every fault plan and
     cancellation point, every clock. [file s k] is the value of the terminal key k.
     [jt o clk s0 k] = deleting k is justified at one of the readings: exists i, justified o (clk i) s0 k. *)
-From CM Require Import Lib.Str Lib.CleanSyntax Gen.Consts Clean.Model Clean.Proofs Clean.Prog Clean.Check Clean.SpecProofs Clean.Concurrent Clean.Interfere Clean.Effective Clean.EffectiveCerts.
+From CM Require Import Lib.Str Lib.CleanSyntax Gen.Consts Clean.Model Clean.Proofs Clean.Prog Clean.Check Clean.SpecProofs Clean.Concurrent Clean.Interfere Clean.Effective Clean.EffectiveCerts Clean.Kill.
 From Coq Require Import String Ascii.
 Open Scope Z_scope.
 
@@ -349,6 +349,30 @@ Proof.
 Qed.
 Print Assumptions C18_expired_is_past_not_after.
 
+(** ** a cleaner that is KILLED while it holds the storage_clean lock (its process dies when its call number n
+    begins; [cleank]: the resumption stops, nothing is released -- on FileStorage the lock file stays, goes stale
+    after 2 x lockFreshnessInterval and is removed by the next cleaner, C08_stale_recovers): the storage it leaves is
+    the storage the model [clean] leaves under the environment [with_kill e n] (all calls from number n on fail
+    without effect), and its calls are the first calls of that run. Hence every theorem above, each of which holds
+    for EVERY environment, describes what a killed cleaner leaves behind. *)
+Theorem C18_killed_cleaner_is_model : forall e n clk, kill_at e = None -> forall o s0,
+  sto (cleank e n o clk s0) = sto (snd (clean (with_kill e n) o clk s0)) /\
+  exists rest, lg (snd (clean (with_kill e n) o clk s0)) = rest ++ lg (cleank e n o clk s0).
+Proof. exact killed_is_model. Qed.
+Print Assumptions C18_killed_cleaner_is_model.
+
+(** ... and the cleaning that follows once the dead holder's lock has expired cleans that storage: after both,
+    every key other than last_clean.json has its initial value or is gone and justified for one of the two *)
+Theorem C18_killed_then_cleaned_safe : forall e1 n o1 clk1 e2 o2 clk2 s0 k,
+  kill_at e1 = None -> k <> spec_last_clean ->
+  let s1 := sto (cleank e1 n o1 clk1 s0) in
+  let s2 := sto (snd (clean e2 o2 clk2 s1)) in
+  file s2 k = file s0 k \/
+  (file s2 k = None /\
+   ((exists i, justified o1 (clk1 i) s0 k = true) \/ (exists i, justified o2 (clk2 i) s0 k = true))).
+Proof. exact killed_then_cleaned_safe. Qed.
+Print Assumptions C18_killed_then_cleaned_safe.
+
 (** ** the tie to the source text (translator, every run): the literals and comparison operators
     ([consts_ok]) and the control-flow shape ([consts_shape_ok]) that harness/cmd/consts/c18.go reads
     from maintain.go are the ones the model is written with -- a changed literal, operator, step
@@ -409,7 +433,7 @@ Definition ex_store : store :=
     (s2k "acme/ca/users/u/u.key", File 13 plain);
     (s2k "locks/issue_cert_x.lock", File 14 plain);
     (s2k "last_clean.json", File 15 (Cls None None (Some (T - 2 * day, s2k "other")))) ].
-Definition ex_env : env := Env [] [] None true.
+Definition ex_env : env := Env [] [] None true [] None.
 Definition ex_opts : opts := Opts (1 * day) true true (30 * day) (s2k "me").
 
 (** what a cleaning does to it: the long-expired certificate's three assets and the two bad
@@ -623,8 +647,8 @@ Proof. vm_compute. repeat split; reflexivity. Qed.
     same; the Store of the record (call 11) writes it and CleanStorage reports the error -- the
     theorems above cover these runs (the only effects are still justified deletions and the record) *)
 Example ex_effect_then_error :
-  let e1 := Env [] [10%nat] None true in
-  let e2 := Env [] [11%nat] None true in
+  let e1 := Env [] [10%nat] None true [] None in
+  let e2 := Env [] [11%nat] None true [] None in
   lookup (sto (snd (clean e1 ex_opts0 (at_ T) ex_fs_store))) (s2k "certificates/iss/dead.example") = None /\
   fst (clean e1 ex_opts0 (at_ T) ex_fs_store) = RNil /\
   fst (clean e2 ex_opts0 (at_ T) ex_fs_store) = RErrStore /\
@@ -671,3 +695,32 @@ Proof.
     + eexists. repeat split; [exists (s2k "dead.example.crt"); split; reflexivity | right; left; reflexivity | reflexivity].
     + eexists. repeat split; [exists (s2k "dead.example.crt"); split; reflexivity | right; right; left; reflexivity | reflexivity].
 Qed.
+
+(** a Delete that takes effect in part (os.RemoveAll removes some of what the key covers, then fails): X.key is a
+    folder; the Delete of it (call 7 on this storage) removes inner/a.pem, leaves inner/b.pem and reports an error.
+    The run goes on (X.json is deleted), the site folder is not empty and stays; nothing else is touched.
+    All theorems above hold for such runs: [pfaults] is part of the environment they quantify over. *)
+Definition ex_keydir_store : store :=
+  [ (s2k "certificates/iss/dead.example/dead.example.crt", File 3 (crt (T - 31 * day)));
+    (s2k "certificates/iss/dead.example/dead.example.key/inner/a.pem", File 4 plain);
+    (s2k "certificates/iss/dead.example/dead.example.key/inner/b.pem", File 5 plain);
+    (s2k "certificates/iss/dead.example/dead.example.json", File 2 plain);
+    (s2k "acme/ca/users/u/u.key", File 13 plain) ].
+Example ex_partial_delete :
+  let e := Env [] [] None true [(7%nat, [s2k "certificates/iss/dead.example/dead.example.key/inner/b.pem"])] None in
+  map fst (sto (snd (clean e ex_opts_ni (at_ T) ex_keydir_store))) =
+  map s2k [ "last_clean.json"; "certificates/iss/dead.example/dead.example.key/inner/b.pem"; "acme/ca/users/u/u.key" ]%string
+  /\ fst (clean e ex_opts_ni (at_ T) ex_keydir_store) = RNil.
+Proof. vm_compute. split; reflexivity. Qed.
+
+(** a cleaner killed when its call number 12 begins (after Delete of X.crt, before Delete of X.key) leaves X.key and X.json
+    behind, holds the lock for ever, has issued 12 calls; the next cleaning removes nothing more of that site (X.crt
+    is gone, nothing says the orphans are expired) but everything it does is justified *)
+Example ex_killed :
+  map fst (sto (cleank ex_env 12 ex_opts_ni (at_ T) ex_store2)) =
+  map fst (sto (snd (clean (with_kill ex_env 12) ex_opts_ni (at_ T) ex_store2))) /\
+  List.length (lg (cleank ex_env 12 ex_opts_ni (at_ T) ex_store2)) = 12%nat /\
+  lookup (sto (cleank ex_env 12 ex_opts_ni (at_ T) ex_store2)) (s2k "certificates/iss/dead.example/dead.example.crt") = None /\
+  lookup (sto (cleank ex_env 12 ex_opts_ni (at_ T) ex_store2)) (s2k "certificates/iss/dead.example/dead.example.key") <> None /\
+  kill_at ex_env = None.
+Proof. vm_compute. split; [reflexivity|]. split; [reflexivity|]. split; [reflexivity|]. split; [discriminate | reflexivity]. Qed.
